@@ -626,6 +626,46 @@ theorem value_pull_error_first {V} (d : Decoder V) (notice : Bool) (w : Wire) (v
           rw [← hs.2, ← h, hacc]; simp
       · cases h
 
+/-- `pull_to_vec` / `pull_consume` with a consumer that reads to the end (`read_to_end`: no early stop,
+returns whatever arrived at EOF — the "sloppy" extreme of a decoder): blocking and async, for every
+schedule, the result is exactly the whole stream, or an error — never a prefix. -/
+theorem vec_pull_spec (notice : Bool) (w : Wire) :
+    valueSync (⟨fun _ => none, fun acc => some acc⟩ : Decoder Bytes) w = payload w ∧
+    valueAsync Gen.Commit.pullResFirst (⟨fun _ => none, fun acc => some acc⟩ : Decoder Bytes) notice w = payload w := by
+  have hfeed : ∀ (bodies : List Bytes) (acc : Bytes),
+      feed (⟨fun _ => none, fun acc => some acc⟩ : Decoder Bytes) acc bodies = (none, acc ++ bodies.flatten) := by
+    intro bodies
+    induction bodies with
+    | nil => intro acc; simp [feed]
+    | cons b r ih => intro acc; simp [feed, ih, List.append_assoc]
+  have hs := syncPullN_payload none w
+  rw [source_order.2.1]
+  constructor
+  · simp only [valueSync, hfeed, List.nil_append]
+    cases hp : payloadN none w with
+    | none =>
+      rw [hp] at hs
+      cases hok : (syncPullN none w).ok with
+      | false => simp [payload, hp]
+      | true => simp [hok, syncPull_ok_lastSeen w hok] at hs
+    | some wb =>
+      rw [hp] at hs
+      have hok : (syncPullN none w).ok = true := by rw [hs.1]
+      simp [payload, hp, hok, hs.2]
+  · simp only [valueAsync, hfeed, List.nil_append, asyncPull_eq]
+    cases hp : payloadN none w with
+    | none =>
+      rw [hp] at hs
+      cases hok : (syncPullN none w).ok with
+      | false => simp [payload, hp]
+      | true => simp [hok, syncPull_ok_lastSeen w hok] at hs
+    | some wb =>
+      rw [hp] at hs
+      have hok : (syncPullN none w).ok = true := by rw [hs.1]
+      simp [payload, hp, hok, hs.2]
+
+example : valueSync (⟨fun _ => none, fun acc => some acc⟩ : Decoder Bytes) (faultWire [[1, 2], [3]] 1 .cut []) = none := by decide
+
 /-- In the property's words: the stream is truncated (no `last` chunk before the error / cut) and no
 delivered prefix completes the value ⇒ the pull returns an error, sync and async. -/
 theorem truncated_value_is_error {V} (d : Decoder V) (notice : Bool) (w : Wire)
